@@ -7,6 +7,27 @@ import traceback
 from . import core
 
 
+def generic_replay(mod, run, path):
+    """Replay of a recorded violation for drivers without a dedicated replay(): re-run the check on the current tree
+    and report whether the same clause:tag still fails (exit 1) or not (exit 0).  Evidence is not rewritten."""
+    import json
+    rec = json.load(open(path))
+    sig = '%s:%s' % (rec['clause'], rec['tag'])
+    print('replaying %s (recorded on tree %s): %s' % (path, rec.get('tree'), sig))
+    print('  recorded case: %s' % json.dumps(rec['first']['case'])[:600])
+    print('  recorded expected=%s' % json.dumps(rec['first']['expected'])[:300])
+    print('  recorded observed=%s' % json.dumps(rec['first']['observed'])[:300])
+    mod.check(run)
+    n = run.viol_keys.get(sig, 0)
+    run.cleanup()
+    if n:
+        print('VIOLATION property=%s replay=%s' % (run.pid, path))
+        print('  still fails on the current tree: %s (%d cases)' % (sig, n))
+        return 1
+    print('%s: %s does not fail on the current tree' % (run.pid, sig))
+    return 0
+
+
 def main():
     ap = argparse.ArgumentParser()
     ap.add_argument('pid')
@@ -26,7 +47,9 @@ def main():
         core.use_repo()
         run = core.Run(pid, a.tier, seed, level=getattr(mod, 'LEVEL', 'model_checking'))
         if a.replay:
-            return mod.replay(run, a.replay)
+            if hasattr(mod, 'replay'):
+                return mod.replay(run, a.replay)
+            return generic_replay(mod, run, a.replay)
         mod.check(run)
         return run.finish()
     except core.MachineryError as ex:
